@@ -207,6 +207,27 @@ pub fn corpus(thorough: bool) -> Vec<Vec<u8>> {
             }
         }
     }
+    // funs whose Size field disagrees with their real length, alone and followed by another element of a tuple / list
+    {
+        let mut inner = vec![1u8];
+        inner.extend_from_slice(&[7u8; 16]);
+        inner.extend_from_slice(&3u32.to_be_bytes());
+        inner.extend_from_slice(&1u32.to_be_bytes());
+        inner.extend_from_slice(&[119, 1, b'm', 97, 4, 97, 5]);
+        inner.extend_from_slice(&[88, 119, 3, b'n', b'@', b'h', 0, 0, 0, 1, 0, 0, 0, 2, 0, 0, 0, 3]);
+        inner.extend_from_slice(&[97, 9]);
+        let real = (inner.len() + 4) as i64;
+        for size in [real - 4, real - 2, real - 1, real, real + 1, real + 2, real + 4, real + 100, 0, 4, 5, u32::MAX as i64] {
+            let mut f = vec![112u8];
+            f.extend_from_slice(&(size as u32).to_be_bytes());
+            f.extend_from_slice(&inner);
+            out.push([&[131u8][..], &f].concat());
+            out.push([&[131u8, 104, 2][..], &f, &[97, 1]].concat());
+            out.push([&[131u8, 104, 3][..], &f, &[97, 1, 97, 2]].concat());
+            out.push([&[131u8, 108, 0, 0, 0, 2][..], &f, &[97, 1, 106]].concat());
+            out.push([&[131u8, 116, 0, 0, 0, 1][..], &f, &[119, 1, b'v']].concat());
+        }
+    }
     out
 }
 
